@@ -73,6 +73,7 @@ def container_task(prop, cfg, tier, seed):
 
     def body(E, ctx):
         E.structural_bytes_eq = True
+        E.link_symbolic = True
         fh = SymFile("img")
         w = lambda a, n: files.word_at("img", a, n, "le")
         sig = lambda a, s: core.sym_and(*[files.byte_at("img", a + k) == c for k, c in enumerate(s)])
@@ -100,9 +101,13 @@ def container_task(prop, cfg, tier, seed):
         for k, it in enumerate(items):
             E.assume(core.sym_or(guid_is(it["addr"], canon[k % len(canon)]), guid_is(it["addr"], G["PHYSICAL_SECTOR_SIZE_GUID"])))
         other = real_uuid.UUID(int=0x1234)
-        for r in regions:
-            E.assume(core.sym_or(guid_is(r["addr"], G["BAT_REGION_GUID"]), guid_is(r["addr"], G["METADATA_REGION_GUID"]),
-                                 guid_is(r["addr"], other)))
+        rcanon = [G["BAT_REGION_GUID"], G["METADATA_REGION_GUID"]]
+        for k, r in enumerate(regions):
+            if cfg.get("regions_canonical"):
+                E.assume(core.sym_or(guid_is(r["addr"], rcanon[k % 2]), guid_is(r["addr"], other)))
+            else:
+                E.assume(core.sym_or(guid_is(r["addr"], G["BAT_REGION_GUID"]), guid_is(r["addr"], G["METADATA_REGION_GUID"]),
+                                     guid_is(r["addr"], other)))
         # bound: at most one item deviates from the canonical order, and the second region table (not consulted) is empty
         dev = 0
         for k, it in enumerate(items):
@@ -133,6 +138,9 @@ def container_task(prop, cfg, tier, seed):
             return dict(entry="vhdx_container", params={}, files=fd, call=["open"])
 
         ctx.scenario = Scenario(vars_, build, lambda mo, d: dict(returns=True))
+        # replay images only: every item's data lives in its own slot, so no two symbolic views overlap partially
+        for k, it in enumerate(items):
+            ctx.scenario.extra += [it["off"] >= 0x10000 + 0x2000 * k, it["off"] <= 0x11000 + 0x2000 * k, it["off"] % 8 == 0]
         if cfg.get("parent"):
             opened = []
 
